@@ -23,6 +23,7 @@ def main(tier):
     chk.run("R-PIPE", P.pipe, r, floor=12, control=lambda: P.control_pipe(r))
     chk.run("R-TOPOGUARD", DR.topoguard, r, floor=6)
     chk.run("R-TARJAN", DR.tarjan, r, floor=10)
+    chk.run("R-SELFIMPORT", DR.selfimport, r, floor=2)
     chk.run("R-DEPTWIN", P.deptwin, r, s, cx.sites, floor=2)
     chk.run("R-SKIPLOSS", T.skiploss, r, s, cx.sites, modules=("dependency_checker.py",), floor=4)
     chk.run("R-NAMEDKINDS", P.namedkinds, r, s, cx.sites, floor=10)
